@@ -386,6 +386,7 @@ pub fn exec(plan: &Plan) -> ExecOut {
     let n = plan.tasks.len();
     crate::tpool::FRESH.store(plan.cfg.fresh_threads, Ordering::Relaxed);
     crate::ops::ensure_global_pool();
+    crate::guard::GUARD_RUN.store(plan.cfg.guard_alloc, Ordering::Relaxed);
     if !FIRST_USE.load(Ordering::Relaxed) {
         crate::guard::reset_arena();
         // every run starts from the same C dispatcher state
